@@ -192,8 +192,9 @@ class Reservoir(Filter[Iterable[Any], Sequence[Any]]):
 
                 try:
                     for r1,r2,r3 in batched_randoms_forever(20):
-                        W = W*r1**x
-                        S = floor(log(r2,1-W))
+                        #a random number can be exactly 0 which we take for the middle of [0,2**-30)
+                        W = W*(r1 or 2**-31)**x
+                        S = floor(log(r2 or 2**-31,1-W))
                         reservoir[int(r3*count)] = next(islice(items,S,S+1))
                 except StopIteration:
                     pass
